@@ -126,11 +126,12 @@ def sample_cfg(name: str, rng, tier: str = "quick", small: bool = True) -> dict:
     elif name in ("cvrp", "sdvrp"):
         cfg["gen"] = {"num_loc": n}
         if rng.random() < 0.4:
-            cfg["gen"]["capacity"] = rng.choice([10, 12, 15, 20, 30, 40])
+            # 9 = max_demand: a customer may need the whole vehicle (demand == capacity exactly)
+            cfg["gen"]["capacity"] = rng.choice([9, 9, 10, 12, 15, 20, 30, 40])
     elif name == "cvrptw":
         cfg["gen"] = {"num_loc": n, "scale": rng.random() < 0.4}
         if rng.random() < 0.4:
-            cfg["gen"]["capacity"] = rng.choice([10, 15, 20, 30])
+            cfg["gen"]["capacity"] = rng.choice([9, 10, 15, 20, 30])
     elif name == "svrp":
         k = rng.randint(2, 4)  # a single technician is degenerate (see DESIGN 7, observations)
         cfg["gen"] = {"num_loc": n, "tech_costs": [1, 2, 3, 4][:k]}
